@@ -142,6 +142,11 @@ func (in *Interp) callBuiltin(b *ssa.Builtin, args []Value, site ssa.Instruction
 		if fr.panicking == nil {
 			return Iface{}
 		}
+		// recover stops a panic only when called directly by the deferred
+		// function (Go spec): in a helper called by it, it returns nil.
+		if g.fr == nil || g.fr.caller != fr {
+			return Iface{}
+		}
 		gp := fr.panicking
 		fr.panicking = nil
 		fr.recovered = true
